@@ -85,6 +85,7 @@ def check(ctx: Ctx, ev: Evidence) -> list[Finding]:
         if not ok:
             out.append(Finding("C03-R1c", key, msg, "", witness_of(src, fin_edge) if "Finished" in name and fin_edge is not None else None))
     out += eof_fields_recorded(ctx, ev, dst)
+    out += checksum_verdict_only_when_complete(ctx, ev, dst)
     out += single_drop_recoverability(ctx, ev, src, dst)
     ev.extra["explanation"] = "acceptance matrix (step x retransmitted PDU kind) read from the abstract transition systems of both handlers; recovery/liveness under fault schedules is NOT decided"
     ev.assume("the surrounding entity acknowledges EOF PDUs of transactions the addressed handler already closed (acknowledge_inactive_eof_pdu, C20-R3)")
@@ -140,6 +141,31 @@ def eof_fields_recorded(ctx: Ctx, ev: Evidence, dst) -> list[Finding]:
         if not ok:
             out.append(Finding("C03-R1d", f"dest handler | EOF accepted without recording its checksum | {entry}",
                                f"an EOF PDU accepted {entry} is acknowledged but its checksum is not stored in `{fld}`: the completion check after the recovery compares against the initial value and can never succeed", "", witness_of(dst, wit[entry])))
+    return out
+
+
+def checksum_verdict_only_when_complete(ctx: Ctx, ev: Evidence, dst) -> list[Finding]:
+    """C03-R1f: in acknowledged mode the checksum verdict is taken only when nothing is recorded missing any more. A
+    FILE_CHECKSUM_FAILURE declared while the tracker still holds gaps (or the Metadata is missing) judges an incomplete file:
+    with any handler code other than IGNORE it cancels a transfer the NAK procedure would have completed."""
+    ev.rule("C03-R1f", "acknowledged mode: FILE_CHECKSUM_FAILURE is declared only when no gap is recorded and the Metadata is present", 1)
+    out: list[Finding] = []
+    h = dst.h
+    n = 0
+    bad = None
+    for e in dst.edges:
+        for x in e.ev:
+            if x.kind == "env" and x.name.startswith("fault.") and ename(x.args[1]) == "FILE_CHECKSUM_FAILURE" and ename(h.ew(x.watch, "_params.pdu_conf.trans_mode")) == "ACKNOWLEDGED":
+                n += 1
+                tr = h.ew(x.watch, "_params.acked_params.lost_seg_tracker.$n")
+                mm = h.ew(x.watch, "_params.acked_params.metadata_missing")
+                if tr != 0 or mm is True:
+                    bad = bad or (e, x, tr, mm)
+    ev.inst("C03-R1f", f"dest handler | {n} checksum-failure declarations in acknowledged mode, with gaps still recorded: {'none' if bad is None else 'yes'}", "ok" if bad is None else "violation")
+    if bad is not None:
+        e, x, tr, mm = bad
+        out.append(Finding("C03-R1f", "dest handler | checksum failure declared while data is still recorded missing",
+                           f"FILE_CHECKSUM_FAILURE is declared in acknowledged mode while the lost-segment tracker is {'non-empty' if tr != 0 else 'empty'} and metadata missing={mm}: the verdict is taken on an incomplete file (a non-IGNORE handler code cancels a recoverable transfer)", x.site, witness_of(dst, e)))
     return out
 
 
